@@ -1,10 +1,10 @@
 ----------------------------- MODULE Trace_Lair -----------------------------
 (* Trace validation of real whale_lair executions against Lair.tla.           *)
-EXTENDS Lair, Json, IOUtils
+EXTENDS Lair, LairWeight, Json, IOUtils
 
 Rec == ndJsonDeserialize(IOEnv.TRACE)
-VARIABLES l, st
-vars == <<l, st>>
+VARIABLES l, st, wt
+vars == <<l, st, wt>>
 
 RECURSIVE FlatUnb(_, _)
 FlatUnb(o, pairs) ==
@@ -50,6 +50,22 @@ WeightChecks(o) ==
                           SumOver([u \in Users |-> IF u \in bonders THEN o.weights[u].weight ELSE Zero], Users) \preceq g>>,
      <<"X.lair.shares-add-up-to-at-most-100%",
         SumOver([u \in Users |-> o.weights[u].share], Users) \preceq DEC>> >>
+\* the weight records as LairWeight.tla says they stand: wt = [b : [Users -> [Denoms -> rec]], g : rec, rate]
+NoWt(rate) == [b |-> [u \in Users |-> [d \in Denoms |-> NoBond]], g |-> NoBond, rate |-> rate]
+NextWt(ev) ==
+  IF ev.res # "ok" \/ ev.ev \notin {"bond", "unbond"} THEN wt
+  ELSE LET u == ev.actor  d == ev.args.d  a == ev.args.amt  b == wt.b[u][d] IN
+       IF ev.ev = "bond"
+       THEN [wt EXCEPT !.b[u][d] = BondRec(b, a, st.now, wt.rate), !.g = BondRec(wt.g, a, st.now, wt.rate)]
+       ELSE [wt EXCEPT !.b[u][d] = UnbondRec(b, a, st.now, wt.rate),
+                       !.g = GlobalUnbondRec(wt.g, a, Slash(b, a, st.now, wt.rate), st.now, wt.rate)]
+\* ... and what the Weight query (no timestamp, no global index: "now") must then answer
+WeightModelChecks(ev, o) ==
+  LET w == NextWt(ev)
+      mine(u) == SetSum([d \in Denoms |-> Grown(w.b[u][d], o.now, w.rate)], Denoms)
+  IN << <<"X.lair.weight-query=LairWeight-model",
+           \A u \in Users : o.weights[u].res = "ok" =>
+              o.weights[u].weight = mine(u) /\ o.weights[u].global = Grown(w.g, o.now, w.rate)>> >>
 Unchanged(ev, t) ==
   << <<"C08.rejected.unchanged", t = st>>, <<"C08.rejected.digest", ev.dpre = ev.dpost>> >>
 
@@ -77,22 +93,22 @@ EvChecks(ev, t) ==
                \o << <<"C08.withdraw.matured-rejected", Payable(st, u, d) = Zero>> >>
      [] ev.ev = "tick" -> ObsChecks(TickNext(st, ev.args.dt), ev.obs)
      [] OTHER -> << <<"TRACE.unknown-event", FALSE>> >>)
-  \o StateChecks(t) \o QueryChecks(t, ev.obs) \o WeightChecks(ev.obs)
+  \o StateChecks(t) \o QueryChecks(t, ev.obs) \o WeightChecks(ev.obs) \o WeightModelChecks(ev, ev.obs)
 
 Report(ev, bad) ==
   IF bad = {} THEN TRUE
   ELSE PrintT(ToJson([k |-> "BAD", run |-> ev.run, step |-> IF ev.ev = "reset" THEN -1 ELSE ev.step,
                       line |-> l, ev |-> ev.ev, bad |-> bad]))
 
-Init == l = 1 /\ st = [period |-> "none"]
+Init == l = 1 /\ st = [period |-> "none"] /\ wt = [rate |-> "none"]
 Next ==
   /\ l <= Len(Rec)
   /\ LET ev == Rec[l] IN
        IF ev.ev = "reset"
        THEN LET t == StOf([period |-> ev.cfg.period, white |-> {ev.cfg.white[i] : i \in 1 .. Len(ev.cfg.white)}], ev.obs) IN
-            Report(ev, Failed(StateChecks(t) \o QueryChecks(t, ev.obs))) /\ st' = t
+            Report(ev, Failed(StateChecks(t) \o QueryChecks(t, ev.obs))) /\ st' = t /\ wt' = NoWt(ev.cfg.growth)
        ELSE LET t == StOf(st, ev.obs) IN
-            Report(ev, Failed(EvChecks(ev, t))) /\ st' = t
+            Report(ev, Failed(EvChecks(ev, t))) /\ st' = t /\ wt' = NextWt(ev)
   /\ l' = l + 1
 Spec == Init /\ [][Next]_vars
 
